@@ -81,6 +81,21 @@ CLAIMED.update({
   tech="Rocq/Coq induction over subscription histories + differential execution", ref="DESIGN.md 0, 6 (C12)"),
 })
 
+CLAIMED.update({
+ "C10": dict(
+  text="Coq theorems over an interleaving model of Registry.add/get/Remove at lock granularity (any number of concurrent spawners, stoppers and lookups): C10_unique_live (at most one live process per id, and it is the registry entry), C10_getpid_iff_registered, C10_one_winner (of k adds of one id exactly one runs Start, the others run nothing and publish ActorDuplicateIdEvent once), C10_respawn_after_remove_concurrent; and over the sequential machine: C10_duplicate_is_noop (queues, children maps, Producer counts untouched), C10_respawn_after_stop. Tie: the real registry.go under the deterministic scheduler (all schedules of 2-3 concurrent adds with a remover and a getter, replayed in the model) and spawn/send/stop/respawn/duplicate histories on the real engine.",
+  note="Trusted: Coq kernel + vm_compute; Registry.v hand-written; RWMutex modelled as atomic sections (shimmed in the scheduled build); premise: Remove is called only by the registered process after it handled Stopped (what process.cleanup does); the oracle of the respawn family is tied by correspondence only; SpawnChild's adoption of an incumbent is exhibited by a lemma; no axioms.",
+  tech="Rocq/Coq inductive invariants over a lock-granular interleaving model + exhaustive schedule enumeration of the real registry.go", ref="DESIGN.md 0, 6 (C10)"),
+ "C11": dict(
+  text="Coq theorems over a transition system with a logical clock: C11_correlated (with pairwise distinct response ids the value Result() returns for a request was sent in reply to that request), C11_error_only_after_deadline, C11_unregistered_after_result (both branches), C11_late_reply_dead_letters, C11_at_most_one_result, C11_respond_never_blocks (repaired mailbox), with C11_distinct_ids_needed showing the premise is necessary. Tie: 1-32 concurrent requesters against responders replying 0-3 times with delays on either side of the timeout, on the real engine; wall clock enters only as bounds.",
+  note="Trusted: Coq kernel + vm_compute; Response.v hand-written; the 31-bit random response ids are an oracle stream and the theorems assume they are pairwise distinct (a collision found offline is replayed in the thorough tier as information, not a verdict); context.WithTimeout modelled as a logical deadline; no axioms.",
+  tech="Rocq/Coq invariants over a timed transition system + differential execution with concurrent requesters", ref="DESIGN.md 0, 6 (C11)"),
+ "C19": dict(
+  text="Coq theorems over a model of n agents with per-node registries and a network delivering each operation's notifications in any order: C19_activate_refuses_known_or_unhostable, C19_activate_spawns_one_on_selected, C19_views_agree_after_delivery (every member resolves kind/id to the same PID and lists it under its kind; the actor is registered exactly where the view places it), C19_joiner_learns_all, C19_deactivate_removes_everywhere_and_stops, C19_leave_purges_hosted, C19_quiescent_history_refines_spec, for every quiescent history, member count, kind assignment, select choice and delivery order; C19_premises_needed gives a witness for each premise. Tie: 1-4 real clusters in one process over an in-memory Remoter with a protobuf round trip, snapshots injected, every node queried after every operation.",
+  note="Trusted: Coq kernel + vm_compute; ClusterNet.v hand-written on top of Agent.v; premises: hosts pairwise distinct, each snapshot adds or removes one node, cluster-Spawn uses an unknown id, kind names without '/'; Go map order replaced by a canonical one; select is a scripted index; request timeouts are generous wall-clock bounds; no axioms.",
+  tech="Rocq/Coq refinement of a one-map specification for all delivery orders + differential execution of multi-node histories", ref="DESIGN.md 0, 6 (C19)"),
+})
+
 
 def chk(pid, d):
     return {"property_id": pid, "quick_cmd": "./check run %s --tier quick" % pid,
@@ -91,7 +106,7 @@ def chk(pid, d):
             "level_note": d["note"], "technique": d["tech"]}
 
 
-NA_REASON = "check not built yet in this round (planned: DESIGN.md section 6); not a claim that the technique cannot apply"
+NA_REASON = "check still being built in this round (model, theorems and harness for the remote layer: DESIGN.md section 6, C17); not a claim that the technique cannot apply"
 m = {"version": 1, "setup_cmd": "./check setup",
      "hooks": {"guard": "verif",
                "enable": "go build -tags verif -modfile <generated> -overlay <generated> (harness module /verif/harness with replace => /repo; hook files under /verif/tools/hooks and the scheduler shims under /verif/tools/verifshim are overlaid at build time; nothing guarded is committed to /repo)",
